@@ -200,6 +200,12 @@ def concurrent_cases(tier: str, shard: int, nshards: int):
                 idx += 1
                 if idx % nshards == shard:
                     yield {"kind": "concurrent", "cfgi": ci, "docs": di, "num": i, "den": n}
+            # pre-emption points inside rule management (chain compilation on first use), swept densely
+            nf = 240 if tier == "quick" else 4000
+            for i in range(nf):
+                idx += 1
+                if idx % nshards == shard:
+                    yield {"kind": "concurrent", "cfgi": ci, "docs": di, "num": i, "den": nf, "focus": True}
 
 
 def check_concurrent(case) -> Res:
@@ -214,8 +220,14 @@ def check_concurrent(case) -> Res:
             C.build(cfg).render(dd)
         _CONC_WARM.add(key)
     md0 = C.build(cfg)
-    _r, counts = sched.Sched([lambda: md0.render(docs[0])], [], 10**7).run()
-    k = max(1, counts[0] * case["num"] // case["den"])
+    rec = sched.Sched([lambda: md0.render(docs[0])], [], 10**7, record_focus=True)
+    _r, counts = rec.run()
+    if case.get("focus"):
+        if not rec.focus:
+            return Res()
+        k = rec.focus[min(len(rec.focus) - 1, len(rec.focus) * case["num"] // case["den"])]
+    else:
+        k = max(1, counts[0] * case["num"] // case["den"])
     md = C.build(cfg)
     xhtml = bool(md.options.get("xhtmlOut"))
     s = sched.Sched([lambda: md.render(docs[0]), lambda: md.render(docs[1])], [k, sched.BIG], 20 * counts[0] + 10**5)
